@@ -37,8 +37,9 @@ def _arg(sel: int, v: int, w: int, f: float, t: str, symbolic_str: bool = True):
             if w == i:
                 return menu[i]
         skip("menu")
-    if sel == 3 and not symbolic_str:
-        # int(<symbolic float>) enumerates values as well: floats from a menu (index w)
+    if sel == 3:
+        # floats from a menu (index w): int(<symbolic float>) enumerates values, and CrossHair's two float models
+        # make exhaustive verdicts on symbolic floats unstable; float exactness is C05's subject (K-fp)
         for i in range(len(NUM_FLOATS)):
             if w == i:
                 return NUM_FLOATS[i]
@@ -261,52 +262,51 @@ def _mk(target: str, route: str):
                      "maps/tuple): invariant, bystanders unchanged, accepted read-back == normal form" % (route, target))
 
     def prune(sel, v, w, f, t):
-        if (sel not in (3,) or target not in ("str", "bool", "dyn")) and f != 0.0:
+        if f != 0.0:
             skip("float unused")
         if sel not in (4,) and t != "":
             skip("string unused")
         if sel not in (3, 4, 6, 9, 11) and w != 0:
             skip("second int unused")
-        if sel in (3,) and target in ("str", "bool", "dyn") and w != 0:
-            skip("second int unused")
+
         if sel in (0, 1, 3, 4, 10) and v != 0:
             skip("int unused")
 
     if target == "int":
         @obligation(**meta)
-        def ob_int(sel: int, v: int, w: int, f: float, t: str,
+        def ob_int(sel: int, v: int, w: int, t: str,
                    a: Optional[int], b: Optional[int], d: Optional[int]) -> bool:
             """
-            pre: 0 <= sel <= 12 and len(t) <= 2 and -1e6 < f < 1e6
+            pre: 0 <= sel <= 12 and len(t) <= 2
             pre: (a is None or -50 <= a <= 50) and (b is None or -50 <= b <= 50)
             pre: d is None
             post: _
             """
-            prune(sel, v, w, f, t)
+            prune(sel, v, w, 0.0, t)
             # the declared default is valid by construction: the lower bound, else the upper bound, else None
             d = a if a is not None else b
             if a is not None and b is not None and a > b:
                 skip("empty range: no valid default exists")
-            return _step(target, route, sel, v, w, f, t, a, b, None, None, d)
+            return _step(target, route, sel, v, w, 0.0, t, a, b, None, None, d)
     elif target == "str":
         @obligation(**meta)
-        def ob_str(sel: int, v: int, w: int, f: float, t: str, lo: Optional[int], hi: Optional[int]) -> bool:
+        def ob_str(sel: int, v: int, w: int, t: str, lo: Optional[int], hi: Optional[int]) -> bool:
             """
-            pre: 0 <= sel <= 12 and len(t) <= 2 and -1e6 < f < 1e6
+            pre: 0 <= sel <= 12 and len(t) <= 2
             pre: (lo is None or 0 <= lo <= 2) and (hi is None or 2 <= hi <= 3)
             post: _
             """
-            prune(sel, v, w, f, t)
-            return _step(target, route, sel, v, w, f, t, None, None, lo, hi, None)
+            prune(sel, v, w, 0.0, t)
+            return _step(target, route, sel, v, w, 0.0, t, None, None, lo, hi, None)
     else:
         @obligation(**meta)
-        def ob(sel: int, v: int, w: int, f: float, t: str) -> bool:
+        def ob(sel: int, v: int, w: int, t: str) -> bool:
             """
-            pre: 0 <= sel <= 12 and len(t) <= 2 and -1e6 < f < 1e6
+            pre: 0 <= sel <= 12 and len(t) <= 2
             post: _
             """
-            prune(sel, v, w, f, t)
-            return _step(target, route, sel, v, w, f, t, None, None, None, None, None)
+            prune(sel, v, w, 0.0, t)
+            return _step(target, route, sel, v, w, 0.0, t, None, None, None, None, None)
 
 
 for _r in ROUTES:
@@ -345,16 +345,17 @@ def _bad(sel: int, v: int):
 
 
 @obligation(prop="C01", sites=("inv", "accepted", "rejected"),
-            encodes=["cincoconfig.fields.list_field.ListProxy._validate"], budget={"quick": 200, "thorough": 500},
-            what="in-place mutation of a typed list value (8 mutators, 6 iterable kinds) with candidate items of any "
+            encodes=["cincoconfig.fields.list_field.ListProxy._validate"], budget={"quick": 400, "thorough": 800},
+            what="in-place mutation of a typed list value (8 mutators; iterables: list, tuple, iterator, generator, typed list of another field of the same / of another configuration) with candidate items of any "
                  "shape: afterwards every item satisfies IntField(min=0) or is None")
 def list_mutation_keeps_valid(op_i: int, sel: int, v: int, sel2: int, w: int, idx: int, kind: int) -> bool:
     """
-    pre: 0 <= op_i < 8 and 0 <= sel <= 5 and 0 <= sel2 <= 5 and -2 <= idx <= 2 and 0 <= kind <= 3
+    pre: 0 <= op_i < 8 and 0 <= sel <= 5 and 0 <= sel2 <= 5 and -2 <= idx <= 2 and 0 <= kind <= 5
     post: _
     """
     schema = Schema()
     schema.x = ListField(IntField(min=0), default=lambda: [1, 2])
+    schema.loose = ListField(IntField(), default=lambda: [])       # another typed list of the SAME configuration
     cfg = schema()
     op = LOPS[0]
     for i in range(len(LOPS)):
@@ -368,7 +369,17 @@ def list_mutation_keeps_valid(op_i: int, sel: int, v: int, sel2: int, w: int, id
     if op not in ("extend", "setslice", "iadd", "init_copy") and kind:
         skip("kind unused")
     items = [x, y]
-    it = items if kind == 0 else (tuple(items) if kind == 1 else (iter(items) if kind == 2 else (i for i in items)))
+    if kind in (4, 5):
+        # a typed list value of another field (same configuration / another configuration) holding the items,
+        # which are valid THERE but possibly not here
+        other_cfg = cfg if kind == 4 else schema()
+        try:
+            other_cfg.loose = items
+        except ValueError:
+            skip("items not even valid for the unconstrained list")
+        it = other_cfg.loose
+    else:
+        it = items if kind == 0 else (tuple(items) if kind == 1 else (iter(items) if kind == 2 else (i for i in items)))
     proxy = cfg.x
     try:
         if op == "append":
@@ -386,7 +397,7 @@ def list_mutation_keeps_valid(op_i: int, sel: int, v: int, sel2: int, w: int, id
         elif op == "imul":
             proxy *= 2
         elif op == "init_copy":
-            cfg.x = it if kind < 2 else list(items)
+            cfg.x = it if kind in (0, 1, 4, 5) else list(items)
         ok = True
     except (ValueError, IndexError):
         ok = False
